@@ -57,6 +57,15 @@ def run(R, tier):
             p = term["callee"].get("path", "")
             if p.endswith("ErrorCode::get_code"):
                 return cur["x"]
+            # a helper of the error module (e.g. the range match split out of esr_mask): analysed in place
+            rn = u.qualify(facts.strip_generics(term["callee"].get("resolved") or p), term["callee"].get("resolved_krate") or term["callee"].get("krate"))
+            hb = next((x for x in u.bodies if x.npath == rn and x.kind in ("Fn", "AssocFn") and not x.in_trait), None)
+            if hb is not None and rn.startswith("scpi::error::") and len(cur.get("stack", ())) < 4:
+                cur["stack"] = cur.get("stack", ()) + (rn,)
+                try:
+                    return intervals.Interp(hb.mir, model).run({i + 1: a for i, a in enumerate(args)})
+                finally:
+                    cur["stack"] = cur["stack"][:-1]
             return None
 
         def mk(x):
